@@ -162,12 +162,13 @@ template <class T> static void frames (Gen<T>& g, int it)
     {
         rec ("computeLocalFrame", "[" + jv (c) + "," + jv (a) + "," + jv (b) + "]", jv (computeLocalFrame (c, a, b)));
         // a polyline p0 p1 p2 p3: first, next, next, last
-        Vec3<T> p0 = v (), p1 = p0 + a, p2 = p1 + b, p3 = p2 + c;
-        if (it % 9 == 4)
+        Vec3<T> p0 = v ();
+        if ((it / 8) % 3 == 1)
         {   // the same polyline in very small units (the frame's axes do not depend on the scale of the model)
             T k = (T) std::ldexp (1.0, sizeof (T) == 4 ? -16 : -32);
-            p0 *= k; p1 *= k; p2 *= k; p3 *= k;
+            p0 *= k; a *= k; b *= k; c *= k;
         }
+        Vec3<T> p1 = p0 + a, p2 = p1 + b, p3 = p2 + c;
         if (it % 4 == 1) p2 = p1 + a;            // straight segment
         if (it % 4 == 2) p2 = p1 - a * (T) 0.5 + b * (T) 0.125;   // sharp turn (more than 90 degrees)
         Matrix44<T> f0 = firstFrame (p0, p1, p2);
